@@ -87,6 +87,7 @@ pub struct Run {
     pub dep_amt: u64,
     pub nonce: u64,
     pub flaky_on: bool,
+    pub dtok_fails: bool,
 }
 
 /// percentages travel in units of 10^-7 (PDEN of the trace specification), fine enough to put
@@ -157,7 +158,7 @@ impl Run {
         let fixed_id = w.app.store_code(fixed_code());
         let flex_id = w.app.store_code(flex_code());
         let group_id = w.app.store_code(group_code());
-        let tok_id = w.app.store_code(crate::cw20::token_code());
+        let tok_id = w.app.store_code(crate::ics20::FlakyToken::boxed());
         let sink_id = w.app.store_code(Box::new(crate::cw20::Sink));
         let flaky_id = w.app.store_code(Box::new(Flaky));
         let sink = w.app.instantiate_contract(sink_id, creator.clone(), &Empty {}, &[], "sink", None).unwrap();
@@ -236,7 +237,7 @@ impl Run {
         if !r.ok {
             out.emit(&json!({"act":"reset","sys":"cw3","run":run_no,"cfg":cfg,"ok":false,"panic":r.panic,"err":r.err,"now":w.now(),"out":[],"anom":[],
                 "obs":{"props":[],"voters":{"a1":-1,"a2":-1,"a3":-1},"gtotal":0,"bal":{"a1":0,"a2":0,"a3":0,"ms":0},"flaky":false,
-                       "thrq":{"kind":"none","weight":0,"p":0,"q":0,"total":0},"lvoters":[],"voteq":[]}}));
+                       "thrq":{"kind":"none","weight":0,"p":0,"q":0,"total":0},"lvoters":[],"voteq":[],"dtokfail":false}}));
             return None;
         }
         let ms = w.addr("ms");
@@ -251,7 +252,7 @@ impl Run {
                 w.app.execute_contract(a, dtok.clone(), &m, &[]).unwrap();
             }
         }
-        let run = Run { w, flex, ms, group, dtok: Some(dtok), dep_kind, dep_amt, nonce: 0, flaky_on: false };
+        let run = Run { w, flex, ms, group, dtok: Some(dtok), dep_kind, dep_amt, nonce: 0, flaky_on: false, dtok_fails: false };
         let obs = run.observe();
         out.emit(&json!({"act":"reset","sys":"cw3","run":run_no,"cfg":cfg,"ok":true,"panic":false,"err":"","now":run.w.now(),"out":[],"anom":[],"obs":obs}));
         Some(run)
@@ -454,7 +455,7 @@ impl Run {
             }
         }
         json!({"props":props,"voters":Value::Object(voters),"gtotal":gtotal,"bal":Value::Object(bal),"flaky":self.flaky_on,
-               "thrq":thrq,"lvoters":lvoters,"voteq":voteq})
+               "thrq":thrq,"lvoters":lvoters,"voteq":voteq,"dtokfail":self.dtok_fails})
     }
 
     fn build_msgs(&mut self, kind: &str) -> Vec<CosmosMsg> {
@@ -496,6 +497,14 @@ impl Run {
                 let f = self.w.addr("flaky");
                 self.w.app.wasm_sudo(f, &json!({"on": on})).unwrap();
                 self.flaky_on = on;
+                CallOut { ok: true, panic: false, err: String::new(), log: vec![], data: None }
+            }
+            "dtokfail" => {
+                // fault injection: the cw20 deposit token refuses transfers (refunds) while the switch is on
+                let on = args["on"].as_bool().unwrap_or(false);
+                let t = self.dtok.clone().unwrap();
+                self.w.app.wasm_sudo(t, &json!({"on": on})).unwrap();
+                self.dtok_fails = on;
                 CallOut { ok: true, panic: false, err: String::new(), log: vec![], data: None }
             }
             "approve" => {
@@ -578,6 +587,9 @@ impl Run {
 
     /// drain phase (C15): move past every expiry and try to close everything that was not executed
     pub fn drain(&mut self, out: &mut Out) {
+        if self.dep_kind == "cw20" {
+            self.step(&json!({"act":"dtokfail","by":"env","args":{"on":false}}), out);
+        }
         self.step(&json!({"act":"advance","by":"env","args":{"dh":60,"dt":600}}), out);
         let obs = self.observe();
         for p in obs["props"].as_array().unwrap() {
@@ -695,7 +707,10 @@ pub fn random_run(rng: &mut Rng, run_no: u64, len: usize, out: &mut Out) {
                 }
                 json!({"act":"group_update","by": if rng.chance(1,8) {"a1"} else {"ga"},"args":{"add":add,"remove":remove}})
             }
-            94..=96 => json!({"act":"flaky","by":"env","args":{"on":rng.chance(1,2)}}),
+            94..=96 => {
+                if run.dep_kind == "cw20" && rng.chance(1, 2) { json!({"act":"dtokfail","by":"env","args":{"on":rng.chance(1,2)}}) }
+                else { json!({"act":"flaky","by":"env","args":{"on":rng.chance(1,2)}}) }
+            }
             _ => {
                 if run.dep_kind == "cw20" { json!({"act":"approve","by":who,"args":{"amt":rng.range(0, dep_amt + 1)}}) }
                 else { json!({"act":"advance","by":"env","args":{"dh":1,"dt":5}}) }
